@@ -293,6 +293,9 @@ func c12Run(ctx *Ctx, c c12Case) {
 				if out.CompileErr == nil {
 					ctx.Fail(fmt.Sprintf("types: invalid type specifier accepted by Compile (%s)", c12SpecClass(spec)), src+" → "+out.String())
 				}
+				if asOut := evalWith(path+" as "+spec, input, nil); asOut.CompileErr == nil {
+					ctx.Fail(fmt.Sprintf("types: invalid type specifier accepted by Compile after `as` (%s)", c12SpecClass(spec)), path+" as "+spec+" → "+asOut.String())
+				}
 				continue
 			}
 			if out.CompileErr != nil {
@@ -428,6 +431,9 @@ func c12RunSys(ctx *Ctx, c c12SysCase) {
 	if !ts.Valid {
 		if out.CompileErr == nil {
 			ctx.Fail(fmt.Sprintf("types: invalid type specifier accepted by Compile (%s)", c12SpecClass(c.Spec)), src+" → "+out.String())
+		}
+		if asOut := evalWith(c.Expr+" as "+c.Spec, nil, vars); asOut.CompileErr == nil {
+			ctx.Fail(fmt.Sprintf("types: invalid type specifier accepted by Compile after `as` (%s)", c12SpecClass(c.Spec)), c.Expr+" as "+c.Spec+" → "+asOut.String())
 		}
 		return
 	}
